@@ -53,6 +53,9 @@ CHECKS = {
  "C16": ("exploration", "reference model of file generations vs real Tailer+fileStream on the real filesystem, step barriers through harness-controlled wakers (under -race)",
    "Every history of length <=3 (quick) / <=5 (thorough) over {append line, fragment, CRLF line, truncate, rename+create, copy+truncate, delete, recreate, poll} plus 300/3000 random histories of length 12/40, a fifth of them with content present before tailing begins; after every step a logical barrier (all live streams back at their waker; stream gone after delete; pattern poll done after recreate); the final delivered sequence must equal the model's (unique ids give a first-difference witness).",
    "The barrier makes 'the tailer has observed each step' a logical condition; a stuck barrier is reported with a goroutine dump (violation when the stream did not end / the path was not tailed again, else inconclusive).", "§4 C16"),
+ "C17": ("exploration", "offline checker over recorded write and delivery logs of real pipes / sockets / stdin with random chunking, delays and cancellation (under -race)",
+   "60/1500 schedules per stream type (named pipe, unix and tcp stream sockets with 1-4 concurrent connections in one-shot and continuous mode, unixgram and udp with 1-3 senders) plus 8/150 stdin runs through a re-exec'd helper: random chunk sizes (cuts inside a line and inside CRLF), random delays, unterminated tails, closes, cancellation before any data / mid-way / after everything. Per writer the delivered lines must equal the written ones in order plus the tail once (or be a prefix after an early cancel), no delivered line may contain two writers' ids, and the output channel must close after the writer closes (pipes, one-shot) or after cancellation.",
+   "'Ends' uses a 20s watchdog with a goroutine dump as witness; a 0.5ms broadcast of the stream waker stands in for mtail's poll timer; datagram senders are paced.", "§4 C17"),
  "C18": ("exploration", "reference matcher vs real Tailer on the real filesystem, behavioural probes + step barriers (under -race)",
    "Three fixed configurations x every history of length <=2 (quick) / <=3 (thorough) over 12 steps, plus 120/3000 random configurations (1-3 overlapping absolute/relative patterns, optional ignore regex) with random length-10/15 histories over a 2-directory tree; after each step + pattern poll a unique probe line is appended to every file of the tree: probes of files in the reference matcher's expected set must be delivered exactly once, all others never, and log_count must equal the expected set's size.",
    "Reference matcher is path/filepath.Match over model paths + ignore regex on the base name; relative patterns are exercised by chdir-ing the test process into the tree.", "§4 C18"),
